@@ -86,6 +86,10 @@ struct Expect {
   enum Kind { PIPE, OBJECT, NULLDEV, SAME_AS_STDOUT } kind = PIPE;
   hz::FdId obj;   // for OBJECT
   int accmode = -1;  // required O_ACCMODE of the child's descriptor, -1 = any
+  // OBJECT for a parent stream whose number was closed and then re-used by an
+  // unrelated user object: "the parent has none" (null device) is an equally
+  // defensible reading, so both are accepted.
+  bool alt_nulldev = false;
 };
 
 class Built {
@@ -275,6 +279,8 @@ inline bool build(const Plan &p, const std::string &dir, Built &b)
   return true;
 }
 
+inline bool is_nulldev(const hz::FdInfo &f) { return S_ISCHR(f.mode) && major(f.rdev) == 1 && minor(f.rdev) == 3; }
+
 // The user's objects (and, where open, the parent's 0-2) must be untouched.
 inline std::string check_user_objects(const Built &b, std::string &sig)
 {
@@ -291,8 +297,6 @@ inline std::string check_user_objects(const Built &b, std::string &sig)
   }
   return "";
 }
-
-inline bool is_nulldev(const hz::FdInfo &f) { return S_ISCHR(f.mode) && major(f.rdev) == 1 && minor(f.rdev) == 3; }
 
 inline const char *stream_name(int s) { return s == 0 ? "stdin" : s == 1 ? "stdout" : "stderr"; }
 
@@ -343,6 +347,7 @@ inline std::string check_child_streams(const Plan &p, const Built &b, const hz::
           want.dev = st.st_dev;
           want.ino = st.st_ino;
         }
+        if (e.alt_nulldev && is_nulldev(*c)) break;
         if (c->dev != want.dev || c->ino != want.ino) {
           sig = std::string("wrong-object:") + model::type_name(p.eff[s]);
           return "the child's " + nm + " is not the requested object (" + model::type_name(p.eff[s]) + ")";
